@@ -24,7 +24,8 @@ for i in range(4000):
         ok = ok and isinstance(p.payload, RRS) and p.payload.radio_ip.radio_id == meta["radio"] and p.payload.radio_ip.subnet == 10
         # library-built twin with the same fields
         twin = HSTRP(PT.from_bytes(data[3:4]), sn=meta["sn"], options=HSTRPOptions.from_bytes(data[6:6 + meta["optlen"]]) if meta["optlen"] else None,
-                     payload=RRS(opcode=p.payload.opcode, radio_ip=RadioIP(radio_id=meta["radio"]), is_reliable=p.payload.is_reliable), version=data[2])
+                     payload=RRS(opcode=p.payload.opcode, radio_ip=RadioIP(radio_id=meta["radio"]), is_reliable=p.payload.is_reliable, result=p.payload.result,
+                                 renew_time_seconds=p.payload.renew_time_seconds, radio_state=p.payload.radio_state), version=data[2])
         ok = ok and twin.as_bytes() == data
     if not ok:
         bad += 1
